@@ -2163,7 +2163,8 @@ class Parameters:
         for pname, p in objects.items():
             if p.instantiate and pname != "name":
                 params_to_deepcopy[pname] = p
-            elif p.constant and (pname != 'name' or 'name' not in self._param__private.values):
+            elif ((p.constant or any(p is unlocked for block in _edit_constant_blocks for unlocked in block))
+                  and (pname != 'name' or 'name' not in self._param__private.values)):
                 params_to_ref[pname] = p
 
         for p in params_to_deepcopy.values():
